@@ -3,3 +3,4 @@ package main
 import "verif/sim/simkit"
 
 type faultT = simkit.Fault
+type mutT = simkit.Mutation
